@@ -20,3 +20,6 @@ BOUNDS = {'quick': 'FunctionToken::cleanup: every byte string of length <=3; wid
           'thorough': 'cleanup length <=4 (experimental tier, no verdict within 25 min here: 8 cleanup templates with symbolic holes, raw patterns of <=2..3 units, 7 placeholder skeletons)'}
 OUTSIDE = 'inputs longer than the stated sizes (the property speaks of up to 64 KiB: bit-precise bounded checking of string loops does not reach that); JsonFormatter/SentryFormatter have no index arithmetic of their own (strlen on null guarded: C13/C18 harnesses pass null pointers); RegExpFilter matching is Qt/PCRE'
 ASSUMPTIONS = ['every Qt precondition whose violation is undefined behaviour in release Qt is an assertion of the model (QString/QByteArray at(), QList first()/last()/erase, iterator validity)', 'allocation sizes requested through reserve()/QString(n, ch) are observed, not performed']
+
+for _j in JOBS:
+    _j.setdefault('mem_est', 6)
